@@ -1410,3 +1410,25 @@ M("C01", "kill-args-swapped", "walk_puml_graph/find_and_add_loop_kill_paths.py",
             {start_point},""",
   """            {start_point},
             {end_point},""", "R1.7", "end and start points swapped")
+M("C05", "sep-index", PG,
+  """                        path_node = OPERATOR_PATH_FUNCTION_MAP[
+                            node.operator_type
+                        ](i)""",
+  """                        path_node = OPERATOR_PATH_FUNCTION_MAP[
+                            node.operator_type
+                        ](len(ordered_nodes) - 1)""", "R5.8",
+  "separator chosen by list length instead of branch index")
+M("C05", "end-not-joined", WALK,
+  """    puml_graph.add_puml_edge(
+        previous_puml_node,
+        logic_list[-1].end_node,
+    )
+    # handle the next path in the logic list and return updated previous puml
+    # node and node class
+    next_node_class = logic_list[-1].set_path_node(pop=True)""",
+  """    next_node_class = logic_list[-1].set_path_node(pop=True)""", "R5.9",
+  "finished paths are not joined to the block's terminator")
+M("C05", "pair-crossed", WALK,
+  "    new_block = LogicBlockHolder(start_operator, end_operator, logic_node)",
+  "    new_block = LogicBlockHolder(end_operator, start_operator, logic_node)",
+  "R5.9", "start and end operator nodes crossed")
